@@ -743,7 +743,13 @@ def t_offset_line(facts, res, tier):
                     continue
                 first = st[0] if st else {}
                 stop_first = first.get("k") == "if" and "break" in expr_text(first["then"]) and "==loc" in expr_text(first["cond"]).replace(" ", "").replace("(", "").replace(")", "")
-                if stop_first:
+                # the offset is a pest *byte* offset: a loop over chars() must advance its counter by the
+                # encoded length of each character (or iterate char_indices()/bytes())
+                body_t = expr_text(n["body"]).replace(" ", "")
+                by_bytes = "len_utf8()" in body_t or "char_indices()" in expr_text(n["iter"]) or "bytes()" in expr_text(n["iter"])
+                if stop_first and not by_bytes:
+                    verdict, why = False, "the loop counts characters (`+= 1` per char) but compares the count with a byte offset: every non-ASCII character before the place lets the scan run further and newlines in the overshoot are counted (the reported line is too large)"
+                elif stop_first:
                     verdict = True
                 else:
                     verdict, why = False, "the loop counts a character before testing whether the offset was reached: offset 0 is never met and the whole text is scanned"
